@@ -10,6 +10,7 @@ import z3
 from . import cxx
 from .cxx import *
 from .values import *
+from .values import PermMat, SegView
 from .world import strip_ns
 
 class Thrown(Exception):
@@ -501,6 +502,16 @@ class Interp:
                         return -5
                 except Exception:
                     pass
+                # scalar type: a real matrix argument prefers a real-scalar parameter; a complex one cannot bind to a real-scalar parameter
+                try:
+                    sc = ty.args[0]
+                    scn = strip_ns(sc.name) if isinstance(sc, Type) else ''
+                    if scn == 'std::complex':
+                        return 3 if v.cplx else 2
+                    if scn in ('double', 'float', 'Real'):
+                        return -5 if v.cplx else 3
+                except Exception:
+                    pass
                 return 3
             if n.startswith('Eigen::') or n in ('Derived', 'T'):
                 return 1
@@ -744,6 +755,8 @@ class Interp:
             return ''
         if n in ('std::vector',):
             return []
+        if n == 'Eigen::PermutationMatrix':
+            return PermMat(self.const_int(ty.args[0]))
         if n not in self.w.classes and n.split('::')[-1] in self.w.classes:
             n = n.split('::')[-1]
         if n in self.w.classes:
@@ -848,6 +861,40 @@ class Interp:
                 cf = getattr(cf, 'closure_parent', None)
         return None
 
+    def tbind_get(self, name):
+        for fr in reversed(self.frames):
+            tb = getattr(fr, 'tbind', None)
+            if tb and name in tb:
+                return tb[name]
+            if fr.fd is not None:
+                break
+        return None
+
+    def resolve_targs(self, targs):
+        """explicit template arguments are evaluated in the CALLER: names bound by the caller's own template parameters are replaced by their values"""
+        if not targs:
+            return targs
+        out = []
+        for t in targs:
+            if isinstance(t, Num):
+                out.append(t.value)
+                continue
+            if isinstance(t, Type) and not t.args:
+                b = self.tbind_get(strip_ns(t.name))
+                if b is not None:
+                    out.append(b)
+                    continue
+            if not isinstance(t, (Type, int)):
+                try:
+                    v = self.ev(t)
+                    if isinstance(v, int):
+                        out.append(v)
+                        continue
+                except Exception:
+                    pass
+            out.append(t)
+        return out
+
     def tbind_lookup(self, name):
         for fr in reversed(self.frames):
             tb = getattr(fr, 'tbind', None)
@@ -870,6 +917,9 @@ class Interp:
         c = self.lookup_cell(name)
         if c is not None:
             return c.v
+        tbv = self.tbind_get(name) if self.frames else None
+        if isinstance(tbv, int) and not isinstance(tbv, bool):
+            return tbv
         this = self.this_obj()
         if this is not None and name in this.f:
             return this.f[name]
@@ -1562,6 +1612,14 @@ class Interp:
     def _decl_is_int(self, e):
         return False
 
+    def lvalue_or_value(self, e):
+        """(getter, setter) of an expression that denotes storage; for pointer dereference `u->...` the pointee"""
+        try:
+            return self.lvalue(e)
+        except Unsupported:
+            v = self.ev(e)
+            return (lambda: v), (lambda nv: self._assign_into(v, nv))
+
     def lvalue(self, e):
         """returns (getter, setter)"""
         if getattr(e, 'line', 0):
@@ -1601,6 +1659,25 @@ class Interp:
                     i = idx[0]
                     j = idx[1] if len(idx) > 1 else None
                     return (lambda: target.get(i, j)), (lambda v: target.set(i, j, v))
+            if isinstance(e.f, Member) and e.f.name in ('transpose', 'matrix', 'array') and not e.args:
+                g0, s0 = self.lvalue_or_value(e.f.e)
+                base = g0()
+                if isinstance(base, (Cell, FieldCell)):
+                    cellb = base
+                    g0, s0 = (lambda: cellb.v), (lambda v: setattr(cellb, 'v', v))
+                    base = cellb.v
+                if isinstance(base, Mat):
+                    nm = e.f.name
+                    def getter():
+                        b = g0()
+                        return b.T() if nm == 'transpose' else Mat(b.r, b.c, b.d, 'matrix' if nm == 'matrix' else 'array', b.cplx)
+                    def setter(nv):
+                        b = g0()
+                        nv2 = nv.T() if nm == 'transpose' else nv
+                        if (nv2.r, nv2.c) != (b.r, b.c):
+                            raise EvalError('size mismatch in assignment through %s()' % nm)
+                        s0(Mat(b.r, b.c, [list(r) for r in nv2.d], b.kind, b.cplx or nv2.cplx))
+                    return getter, setter
             v = self.ev(e)
             if isinstance(v, MatView):
                 return (lambda: v), (lambda nv: v.write_back(nv))
@@ -1726,7 +1803,7 @@ class Interp:
                     except Unsupported:
                         fd = None      # a namespace-qualified free function of the same name (detail::f inside member f)
                     if fd is not None:
-                        return self.invoke(fd, args, this, cells, targs=f.targs)
+                        return self.invoke(fd, args, this, cells, targs=self.resolve_targs(f.targs))
             if this is not None and '::' in s:
                 # Base::method(...)
                 cls_part, last = s.rsplit('::', 1)
@@ -1753,7 +1830,7 @@ class Interp:
                     fd = self.resolve_overload(pool, args, s)
                 except Unsupported:
                     fd = self.resolve_overload(fds_free, args, s)
-                return self.invoke(fd, args, None, cells, targs=f.targs)
+                return self.invoke(fd, args, None, cells, targs=self.resolve_targs(f.targs))
             if s in self.w.classes or s.split('::')[-1] in self.w.classes:
                 return self.construct(Type(s if s in self.w.classes else s.split('::')[-1], None, False, False, 0), args, False)
             v = self.unknown_call(s, args)
@@ -1845,6 +1922,20 @@ class Interp:
             if name == 'finished':
                 return o.finish()
             raise Unsupported('CommaInit.' + name)
+        if isinstance(o, PermMat):
+            if name == 'setIdentity':
+                o.idx.d = [[i] for i in range(o.n)]
+                return o
+            if name == 'indices':
+                return o.idx
+            if name == 'size' or name == 'rows' or name == 'cols':
+                return o.n
+            raise Unsupported('PermutationMatrix.' + name)
+        if isinstance(o, tuple) and len(o) == 2 and o[0] == 'rowwise':
+            if name == 'reverse':
+                m_ = o[1]
+                return Mat(m_.r, m_.c, [list(reversed(row)) for row in m_.d], m_.kind, m_.cplx)
+            raise Unsupported('rowwise().' + name)
         if isinstance(o, Mat):
             return self.mat_method(o, name, args, targs)
         if isinstance(o, Cx):
@@ -2047,10 +2138,30 @@ class Interp:
             r = Mat(m.r, m.c, [xs[i * m.c:(i + 1) * m.c] for i in range(m.r)], m.kind, m.cplx)
             if name == 'reverseInPlace':
                 m.d = r.d
+                if isinstance(m, SegView):
+                    m.write_back()
                 return m
             return r
         if name == 'data':
             return DataView(m)
+        if name == 'segment':
+            k = self.const_int(targs[0]) if targs else args[1]
+            return SegView(m, args[0], k)
+        if name == 'transposeInPlace':
+            t = m.T()
+            m.r, m.c, m.d = t.r, t.c, t.d
+            return m
+        if name == 'adjointInPlace':
+            t = m.T().map(self.conj) if m.cplx else m.T()
+            m.r, m.c, m.d = t.r, t.c, t.d
+            return m
+        if name == 'rowwise':
+            return ('rowwise', m)
+        if name == 'unaryExpr':
+            fobj = args[0]
+            r = m.map(lambda x: self.call_value(fobj, [x]), cplx=None)
+            r.cplx = any(isinstance(x, Cx) for x in r.elems())
+            return r
         raise Unsupported('Eigen method %s' % name)
 
     def conj(self, x):
@@ -2274,6 +2385,23 @@ class Interp:
                 lst[i0:i1] = out + seg[len(out):]
                 return ('vit', lst, i0 + len(out))
             from .values import DataView as _DV, DataPtr as _DP, ite as _ite, cmp as _cmp
+            if s == 'std::sort' and len(a) == 3 and isinstance(a[0], _DV) and isinstance(a[1], _DP) and a[1].view.m is a[0].m and a[1].off == len(a[0]) <= 4:
+                # small range with a comparator: insertion sort, every comparison is a branch decision (all orderings are explored)
+                n_ = len(a[0])
+                xs = [a[0][i] for i in range(n_)]
+                out = []
+                for x in xs:
+                    pos = len(out)
+                    for k_ in range(len(out)):
+                        c = self.call_value(a[2], [x, out[k_]])
+                        if self.decide(c) if is_sym(c) else bool(c):
+                            pos = k_
+                            break
+                    out.insert(pos, x)
+                for i in range(n_):
+                    a[0][i] = out[i]
+                self.fire('std::sort(<=4 elements, comparator)->insertion sort with decisions')
+                return None
             if s == 'std::sort' and len(a) == 2 and isinstance(a[0], _DV) and isinstance(a[1], _DP) and a[1].view.m is a[0].m and a[1].off == len(a[0]) == 2:
                 # two-element range: (min, max)
                 x, y = a[0][0], a[0][1]
